@@ -145,6 +145,29 @@ def literal_history(rng):
     return ([], body, [])
 
 
+def deep_history(rng):
+    """a value nested d levels deep (built by wrapping it d times), copied, changed at the deepest level through one name and read
+    through the other: at ANY nesting level"""
+    d = rng.choice([3, 20, 47, 48, 49, 50, 60, 100])
+    body = [Decl([(False, ["A"], Arr([Num(1), Num(2), Num(3)]))]), Decl([(False, ["I"], Num(0))]),
+            While(Logic("lt", Var("I"), Num(d)), [ExprS(AssignVar("A", Arr([Var("A")]) if rng.random() < 0.7 else Map([("k", Var("A"))]))),
+                                                   ExprS(AssignVar("I", Arith("+", Var("I"), Num(1))))])]
+    wrap_list = body[2][2][0][1][2][0] == "EArr"
+    body.append(Decl([(False, ["B"], Var("A"))]))
+
+    def path(root):
+        e = Var(root)
+        for _ in range(d):
+            e = Index(e, Num(1) if wrap_list else Str("k"))
+        return e
+    who, other = rng.choice([("A", "B"), ("B", "A")])
+    body.append(ExprS(Method(path(who), [("后增", [Num(9)])])))
+    body.append(ExprS(AssignIndex(path(who), Num(1), Num(77))))
+    body.append(Display(path("A"), path("B")))
+    body.append(Return(path(other)))
+    return ([], body, [])
+
+
 def run(chk, replay=None):
     n = 60 if chk.tier == "quick" else 600
     extra = [(history(chk.rng), None, "history") for _ in range(n)] if replay is None else []
@@ -152,6 +175,7 @@ def run(chk, replay=None):
         # every object starts from its own copy of the type's defaults (numbers included) and is shared, never copied, afterwards
         extra += [(derived_history(chk.rng), None, "derived-list-history") for _ in range(30 if chk.tier == "quick" else 300)]
         extra += [(literal_history(chk.rng), None, "literal-history") for _ in range(20 if chk.tier == "quick" else 200)]
+        extra += [(deep_history(chk.rng), None, "deep-history") for _ in range(12 if chk.tier == "quick" else 60)]
         from props import c08
         extra += [(c08.object_history(chk.rng), None, "object-history") for _ in range(25 if chk.tier == "quick" else 300)]
     semprop.run_property(chk, "C07", "c07", PROFILES, 80, 900, replay=replay, extra_programs=extra,
